@@ -312,3 +312,58 @@ func atomicSection(p *engine.Program, fn *ssa.Function, lockField *types.Var, re
 	}
 	return true, ""
 }
+
+// blockingSendsUnderLock: every blocking channel send (plain send, or send arm of a blocking
+// select) executed with a lock must-held must be in the reasoned table of safe receivers.
+func blockingSendsUnderLock(r *engine.Report, p *engine.Program, rule string, fns []*ssa.Function) {
+	for _, fn := range fns {
+		lf := p.Locks(fn)
+		for _, b := range fn.Blocks {
+			for _, in := range b.Instrs {
+				var chans []ssa.Value
+				switch x := in.(type) {
+				case *ssa.Send:
+					chans = append(chans, x.Chan)
+				case *ssa.Select:
+					if !x.Blocking {
+						continue
+					}
+					for _, st := range x.States {
+						if st.Dir == types.SendOnly {
+							chans = append(chans, st.Chan)
+						}
+					}
+				default:
+					continue
+				}
+				if len(chans) == 0 {
+					continue
+				}
+				h := lf.HeldAt(in)
+				if len(h) == 0 {
+					continue
+				}
+				for _, ch := range chans {
+					cf, _ := engine.FieldOfLoad(ch)
+					cname := "?"
+					if cf != nil {
+						cname = cf.Name()
+					}
+					for _, op := range lf.Ops() {
+						if _, held := h[op.Path.String()]; !held || !op.Acquire {
+							continue
+						}
+						key := engine.FuncName(fn) + "|" + cname + "|" + op.Path.Last().Name()
+						construct := fmt.Sprintf("%s: send on %s with %s held", engine.FuncName(fn), cname, op.Path.Last().Name())
+						if why, ok := blockingUnderLockOK[key]; ok {
+							r.Add(rule, construct, in.Pos(), engine.Discharged, "table: "+why)
+						} else {
+							r.Add(rule, construct, in.Pos(), engine.Violated, "a blocking channel send is performed with a Netceptor lock held and is not in the reasoned table of safe receivers")
+						}
+						break
+					}
+				}
+			}
+		}
+	}
+}
